@@ -43,3 +43,8 @@ check("C16", OPS_TECH + " (position-write / input-access justification per path)
       "Static: every advance of state.pos on every abstract path of every operator/template is justified by a match of exactly that literal / regex match / bounds check at the same position; every assignment to state.pos is a saved position, match end, find result or len(input); every read of the input string (17 sites + 20 template lines) is position-relative; no pattern fragment (36) anchors or looks behind; pos seeded from start_pos in both entry points; only SOI compares the position with an absolute offset.",
       "Sufficient as well as necessary modulo the semantics of str.startswith/find and regex match(s, pos). SOI-using grammars are outside the property.", "§3.7, §4 C16")
 NOT_APPLICABLE.pop("C16", None)
+
+check("C15", "whole-program mutation-site enumeration with mypy receiver classification (per-call vs long-lived), exemption table with machine-checked premises, allocation-site facts, API reachability over the resolved call graph",
+      "Static: of 267 mutation sites none writes a module-/class-level object; the 10 API-reachable writes to long-lived Parser/Rule/Expression/Optimizer objects outside constructors each match a named single-field exemption whose premise is re-checked on every run; fresh ParserState and pair list per parse(); per-instance initialisation of every per-parse field; no mutable default argument; generated parse() keeps all mutable state in locals.",
+      "Thread schedules are covered only through absence of shared mutable writes; atomicity of idempotent cache writes assumed. Flow- and context-insensitive over-approximation.", "§3.4, §4 C15")
+NOT_APPLICABLE.pop("C15", None)
